@@ -1769,19 +1769,22 @@ class Interp:
         first = ('byref', caps) if cbody.local_ty(1).startswith('&') else caps
 
         def reroot(v, tag):
-            # references into the caller's frame among the arguments (iterator items of iter_mut etc.)
+            # references into the caller's frame among the arguments (iterator items of iter_mut etc.); a reference to
+            # a reference keeps both levels (`&mut &mut T` items of an array of references)
             if isinstance(v, Ref):
-                r = v
-                val = self._ref_value(fr, r)
+                chain = [v]
+                val = self._ref_value(fr, v)
                 for _ in range(8):
                     if not isinstance(val, Ref):
                         break
-                    r = val
-                    val = self._ref_value(fr, r)
-                key = ('up', tag, len(fr.store), len(extra))
-                extra[key] = TOP if isinstance(val, Ref) else val
-                back.append((key, r))
-                return Ref(key, [])
+                    chain.append(val)
+                    val = self._ref_value(fr, val)
+                keys = [('up', tag, len(fr.store), len(extra) + lvl) for lvl in range(len(chain))]
+                for lvl in range(len(chain) - 1):
+                    extra[keys[lvl]] = Ref(keys[lvl + 1], [])
+                extra[keys[-1]] = TOP if isinstance(val, Ref) else val
+                back.append((keys[-1], chain[-1]))
+                return Ref(keys[0], [])
             if isinstance(v, Agg):
                 return Agg([reroot(x, tag) for x in v.items], v.kind)
             if isinstance(v, tuple) and len(v) == 2 and v[0] == 'byref':
@@ -1960,6 +1963,14 @@ class Interp:
             if ty.startswith('&'):
                 dv = fr.deref_operand(a)
                 cargs.append(('byref', reroot(dv) if isinstance(dv, Agg) else dv))
+                # where the callee's parameter pointee lives in the caller: references the callee returns into it
+                # (`fn coeffs(&self) -> [&T; 3]`) are translated back
+                tgt_ = fr.ref_place_of(a)
+                if isinstance(tgt_, dict):
+                    r0, p0 = fr.root_of(tgt_)
+                    origin[('*', i + 1)] = Ref(r0, p0)
+                elif isinstance(tgt_, tuple):
+                    origin[('*', i + 1)] = tgt_[1]
             else:
                 ov = fr.operand(a)
                 cargs.append(reroot(ov) if isinstance(ov, Agg) else ov)
